@@ -94,7 +94,7 @@ def indicator(draw):
             v = local + b"@" + dom
             return {"kind": kind, "text": v, "types": ["network.email"], "value": v, "domain": dom}
         dom = dom.lower()
-        tail = draw(st.sampled_from([b"", b"/", b"/{a}/{b}.html", b"/{a}?{b}={a}", b":8080/{a}", b"/{a}/{b}/", b"/{a}#{b}"]))
+        tail = draw(st.sampled_from([b"", b"/", b"/{a}/{b}.html", b"/{a}?{b}={a}", b":8080/{a}", b"/{a}/{b}/", b"/{a}#{b}", b"/archive/item-0000000000000000000000000000000000000000.zip", b"/{a}/000000000000000000000000000000/{b}"]))
         tail = tail.replace(b"{a}", draw(word(1, 5))).replace(b"{b}", draw(word(1, 5)))
         v = draw(st.sampled_from([b"http", b"https", b"ftp"])) + b"://" + dom + tail
         return {"kind": kind, "text": v, "types": ["network.url"], "value": v, "domain": dom}
@@ -178,8 +178,11 @@ def check(case) -> Outcome:
     for pre, suf in (case["s1"], case["s2"]):
         if k == "url" and pre:
             prev = pre[-1]
-            if blob[prev : prev + 1] == b"0":
-                o.exclude("documented heuristic: URL preceded by a length byte")
+            ctx10 = pre[-10:]
+            # documented heuristic (Pascal string in a PE file): the byte before the URL, read as a length, indexes a '0'
+            # AND the ten bytes before the URL are not printable ASCII (a space is printable, TAB / LF / CR are not)
+            if blob[prev : prev + 1] == b"0" and not (ctx10.isascii() and ctx10.decode("ascii").isprintable()):
+                o.exclude("documented heuristic: URL preceded by a length byte after non-printable bytes")
                 continue
         if k == "pe" and suf[:1] not in (b"", b" ", b"\n", b"\t", b"\r"):
             continue
